@@ -477,6 +477,138 @@ fn gen_twin_case(rng: &mut Rng, root: &str) -> ImportCase {
     ImportCase { job, importer: one, url, directive: directive.to_string(), line, extra_urls, plain: vec![], decoys: vec![], root: root.to_string(), twin: Some(two) }
 }
 
+/// A file that `canonicalize` maps into another directory (a symbolic link): `lib/_y.scss` is
+/// really `shared/_y.scss`. Next to it lives an ordinary file `lib/_x.scss`. Each of the two loads
+/// one URL of its own (`xleaf`, `yleaf`). The statement does not say whether "the importing file"
+/// of a linked file is the link or its target, and the check does not decide it; what it demands
+/// is that the search made from a file does not depend on WHAT ELSE the compilation loaded before:
+/// the entry loads x then y, y then x, only x, only y, and each file's own search has to ask the
+/// same questions and pick the same winner every time. (`plain` carries the two entry lines.)
+fn gen_link_case(rng: &mut Rng, root: &str) -> ImportCase {
+    let mut job = JobSpec::default();
+    job.cwd = root.to_string();
+    job.eval_fuel = 1_000_000;
+    let directive = *rng.pick(&["import", "import", "use", "forward", "load-css"]);
+    let x = join(root, "lib/_x.scss");
+    let y = join(root, "lib/_y.scss");
+    let y_real = join(root, "shared/_y.scss");
+    let entry = join(root, "main.scss");
+    let by_use = rng.chance(0.4);
+    let lines: Vec<String> = if by_use { vec!["@use \"lib/x\" as x;\n".into(), "@use \"lib/y\" as y;\n".into()] } else { vec!["@import \"lib/x\";\n".into(), "@import \"lib/y\";\n".into()] };
+    let form = rng.below(12);
+    let xb = format!("/* ordinary */\n{}", directive_text(directive, "xleaf", false, form));
+    let yb = format!("/* linked */\n{}", directive_text(directive, "yleaf", false, form));
+    let mut files: Vec<(String, Vec<u8>)> = vec![
+        (entry.clone(), format!("{}{}", lines[0], lines[1]).into_bytes()),
+        (x.clone(), xb.into_bytes()),
+        (y.clone(), yb.clone().into_bytes()),
+        (y_real.clone(), yb.into_bytes()),
+    ];
+    let mut lps: Vec<String> = vec![];
+    if rng.chance(0.5) {
+        lps.push(if rng.chance(0.5) { "lp1".to_string() } else { join(root, "lp1") });
+    }
+    lps.push(if rng.chance(0.5) { "lp2".to_string() } else { join(root, "lp2") });
+    job.load_paths = lps.clone();
+    job.extra_dirs = vec![join(root, "lp1"), join(root, "lp2"), join(root, "lib"), join(root, "shared")];
+    for tag in ["xleaf", "yleaf"] {
+        let mut forms: Vec<String> = vec![format!("_{}.scss", tag), format!("{}.scss", tag), format!("{}.sass", tag), format!("{}/index.scss", tag), format!("{}.css", tag)];
+        if directive == "import" {
+            forms.push(format!("{}.import.scss", tag));
+        }
+        for d in ["lib", "shared", "", "lp1"] {
+            if rng.chance(0.5) {
+                let f = join(&join(root, d), rng.pick(&forms[..]).as_str());
+                let f = normalize("/", &f);
+                files.push((f.clone(), marker_text(&f, root)));
+            }
+        }
+        // the last load path always has a match: no search of a correct implementation fails
+        let f = join(root, &format!("lp2/_{}.scss", tag));
+        files.push((f.clone(), marker_text(&f, root)));
+    }
+    job.files = files;
+    job.canon = CanonMode::Alias(vec![(y.clone(), y_real)]);
+    job.entry = Entry::Path(if rng.chance(0.5) { entry } else { "main.scss".to_string() });
+    let line = if directive == "load-css" { 3 } else { 2 };
+    ImportCase { job, importer: x, url: "xleaf".into(), directive: format!("link:{}", directive), line, extra_urls: vec![], plain: lines, decoys: vec![], root: root.to_string(), twin: Some(y) }
+}
+
+/// What one variant of a link case shows about the search for `tag`.
+fn link_observation(case: &ImportCase, r: &JobResult, tag: &str) -> String {
+    let files: BTreeSet<String> = case.job.files.iter().map(|f| normalize(&case.job.cwd, &f.0)).collect();
+    let by_marker: BTreeMap<String, String> = files.iter().map(|p| (marker_id(p, &case.root), p.clone())).collect();
+    let rel = |p: &str| p.strip_prefix(case.root.as_str()).unwrap_or(p).to_string();
+    let mut o = String::new();
+    match &r.outcome {
+        Outcome::Ok(css) => {
+            let seen: Vec<String> = observed_markers(css).into_iter().map(|m| by_marker.get(&m).cloned().unwrap_or(m)).filter(|p| p.contains(tag)).map(|p| rel(&p)).collect();
+            o.push_str(&format!("winner(s) {:?}", seen));
+        }
+        other => o.push_str(&format!("outcome {}", other.brief().replace(case.root.as_str(), "$ROOT"))),
+    }
+    let asked: Vec<String> = r.fs.iter().filter(|e| e.norm.contains(tag)).map(|e| format!("{}({})={}", e.op.name(), rel(&e.norm), if e.op == FsOp::Read { "…" } else { e.result.as_str() })).collect();
+    o.push_str(&format!("; asked {:?}", asked));
+    o
+}
+
+/// Runs the four variants of a link case and compares, per file, what its own search did.
+fn judge_link(case: &ImportCase) -> (Vec<(String, String)>, Vec<(JobResult, Vec<String>)>) {
+    let mut v: Vec<(String, String)> = vec![];
+    let mut runs = vec![];
+    let entry_norm = match &case.job.entry {
+        Entry::Path(p) => normalize(&case.job.cwd, p),
+        _ => String::new(),
+    };
+    let (lx, ly) = (case.plain.first().cloned().unwrap_or_default(), case.plain.get(1).cloned().unwrap_or_default());
+    let variants: Vec<(&str, String, bool, bool)> = vec![("x then y", format!("{}{}", lx, ly), true, true), ("y then x", format!("{}{}", ly, lx), true, true), ("only x", lx.clone(), true, false), ("only y", ly.clone(), false, true)];
+    let mut obs: Vec<(String, Option<String>, Option<String>)> = vec![];
+    for (name, text, has_x, has_y) in &variants {
+        let mut c = case.clone();
+        for f in c.job.files.iter_mut() {
+            if normalize(&case.job.cwd, &f.0) == entry_norm {
+                f.1 = text.clone().into_bytes();
+            }
+        }
+        let (r, breaches) = run_case(&c);
+        if !breaches.is_empty() {
+            v.push(("breach(realdisk)".into(), format!("[{}] a custom Fs was supplied, yet the compiling thread reached the real file system: {:?}", name, &breaches[..breaches.len().min(6)])));
+        }
+        match &r.outcome {
+            Outcome::Panic { loc, msg } => v.push((format!("panic@{}", loc), format!("[{}] panicked: {}", name, msg))),
+            Outcome::Hang { kind, site } => v.push((format!("hang({})@{}", kind, site), format!("[{}] did not terminate", name))),
+            _ => {}
+        }
+        obs.push((name.to_string(), if *has_x { Some(link_observation(case, &r, "xleaf")) } else { None }, if *has_y { Some(link_observation(case, &r, "yleaf")) } else { None }));
+        runs.push((r, breaches));
+    }
+    for (which, tag) in [(1usize, "xleaf"), (2usize, "yleaf")] {
+        let have: Vec<(&String, &String)> = obs.iter().filter_map(|o| (if which == 1 { o.1.as_ref() } else { o.2.as_ref() }).map(|s| (&o.0, s))).collect();
+        if let Some((n0, o0)) = have.first() {
+            for (n, o) in have.iter().skip(1) {
+                if o != o0 {
+                    let who = if which == 1 { "the ordinary file lib/_x.scss" } else { "the linked file lib/_y.scss (canonical name shared/_y.scss)" };
+                    v.push((format!("search-depends-on-earlier-loads[link,{}]", case.directive), format!("the search for {:?} made from {} differs with what else the entry loads:\n  [{}] {}\n  [{}] {}\nload paths {:?}", tag, who, n0, o0, n, o, case.job.load_paths)));
+                    break;
+                }
+            }
+        }
+    }
+    // the ordinary file is subject to the whole statement: its winner is the model's
+    let files: BTreeSet<String> = case.job.files.iter().map(|f| normalize(&case.job.cwd, &f.0)).collect();
+    let mut model = Model { files: &files, candidates: BTreeSet::new() };
+    let inner = case.directive.trim_start_matches("link:");
+    if let Some(w) = model.resolve(&case.job.cwd, &case.importer, "xleaf", &case.job.load_paths, inner == "import") {
+        let rel = w.strip_prefix(case.root.as_str()).unwrap_or(&w).to_string();
+        if let Some((_, Some(o), _)) = obs.iter().find(|o| o.0 == "only x") {
+            if !o.starts_with(&format!("winner(s) [{:?}]", rel)) {
+                v.push((format!("wrong-winner[link,{}]", case.directive), format!("{:?} from lib/_x.scss: the statement selects {} but: {}", "xleaf", rel, o)));
+            }
+        }
+    }
+    (v, runs)
+}
+
 fn gen_plain_case(rng: &mut Rng, root: &str) -> ImportCase {
     let mut job = JobSpec::default();
     job.cwd = root.to_string();
@@ -763,6 +895,25 @@ fn run_case(case: &ImportCase) -> (JobResult, Vec<String>) {
 
 impl Imports {
     fn one(&self, case: &ImportCase, res: &mut UnitResult) {
+        if case.directive.starts_with("link:") {
+            let (viol, runs) = judge_link(case);
+            for (r, breaches) in &runs {
+                res.fold_job_in(r, &case.root);
+                res.fold(format!("{:?}", breaches).replace(&case.root, "$ROOT").as_bytes());
+                res.bump("evaluations", 1);
+                res.bump("fault_free_runs", 1);
+                res.bump("fs_calls_recorded", r.fs.len() as u64);
+                if r.fs.iter().any(|e| e.op == FsOp::Canon && e.result.starts_with("ok:") && !e.result.ends_with(&e.norm)) {
+                    res.bump("probe.canonicalize_mapped_a_file_into_another_directory", 1);
+                }
+            }
+            res.bump(&format!("directive.{}", case.directive), 1);
+            res.distinct.push(hash_bytes(13, json!([case.directive, case.job.load_paths, case.job.files.iter().map(|f| &f.0).collect::<Vec<_>>()]).to_string().as_bytes()));
+            for (class, detail) in viol {
+                res.violations.push(Violation { property: "C13".into(), class, detail, case: case.to_json() });
+            }
+            return;
+        }
         let (r, breaches) = run_case(case);
         res.fold_job_in(&r, &case.root);
         res.fold(format!("{:?}", breaches).replace(&case.root, "$ROOT").as_bytes());
@@ -839,7 +990,16 @@ impl Engine for Imports {
         let mut idx = 0u64;
         for _ in 0..40 {
             let pick = rng.below(100);
-            let mut case = if pick < 12 { gen_plain_case(&mut rng, &root) } else if pick < 30 { gen_twin_case(&mut rng, &root) } else { gen_case(&mut rng, &root) };
+            let mut case = if pick < 12 { gen_plain_case(&mut rng, &root) } else if pick < 30 { gen_twin_case(&mut rng, &root) } else if pick < 38 { gen_link_case(&mut rng, &root) } else { gen_case(&mut rng, &root) };
+            if case.directive.starts_with("link:") {
+                let i = idx;
+                idx += 1;
+                let c2 = case.clone();
+                if progress(i, &move || c2.to_json()) {
+                    self.one(&case, &mut res);
+                }
+                continue;
+            }
             // decoys: real files at the paths of absent virtual candidates
             if rng.chance(0.3) {
                 let files: BTreeSet<String> = case.job.files.iter().map(|f| f.0.clone()).collect();
@@ -935,6 +1095,9 @@ impl Engine for Imports {
         };
         let _ = ctx;
         let _ = std::fs::create_dir_all(&c.root);
+        if c.directive.starts_with("link:") {
+            return judge_link(&c).0.into_iter().map(|(class, detail)| Violation { property: "C13".into(), class, detail, case: case.clone() }).collect();
+        }
         let (r, breaches) = run_case(&c);
         judge(&c, &r, &breaches).into_iter().map(|(class, detail)| Violation { property: "C13".into(), class, detail, case: case.clone() }).collect()
     }
